@@ -128,6 +128,16 @@ def run_shard(shard, tier, seed, wd, res):
         pairs += [(u, v), (u, u), (u, f.neg(u))]
     for t0, t1 in coinciding_inputs(g, rng, want=8 if q else 20):
         pairs += [(t0, t1), (t1, t0), (t0, f.neg(t1)), (f.neg(t0), t1)]
+    # cross-candidate coincidences: with s = Z t^2, the first candidate of 1/s equals the second candidate of s, so
+    # t1 = +-1/(Z t0) lands on the same x as t0 whenever exactly one of the two uses its first candidate
+    Z = RF.Z1 if g == 1 else RF.Z2
+    for _ in range(8 if q else 24):
+        t0 = G.rand_fe(g, rng)
+        t1 = f.inv(f.mul(Z, t0))
+        pairs += [(t0, t1), (t1, t0), (t0, f.neg(t1))]
+    if g == 2 and shard["idx"] == 0:
+        for c0 in G.field_boundary(Q, 381)[::4]:
+            singles += [(c0, 1), (0, c0 or 1)]
     for u in singles:
         s.op(gp + ".map", T(f.norm(u)))
     for u0, u1 in pairs:
